@@ -482,6 +482,59 @@ fn run(rep: &Report) {
         }
     }
     l.label("same-builtin contention batch");
+    // contexts BUILT on different threads (identities handed out per thread must not collide):
+    // the same construction steps on two threads, one context shadows a builtin and the other does
+    // not; one shared tree is evaluated on the plain context first, then on the shadowing one,
+    // sequentially and concurrently; each must give the result of its own fresh evaluation
+    for round in 0..rep.tier.pick(20usize, 400) {
+        let make = |shadow: bool| {
+            std::thread::spawn(move || {
+                use evalexpr::{ContextWithMutableFunctions, ContextWithMutableVariables};
+                let mut c = HCtx::new();
+                c.set_value("a".into(), evalexpr::Value::Int(3)).expect("set");
+                let name = if shadow { "min" } else { "other" };
+                c.set_function(name.into(), evalexpr::Function::new(|_| Ok(evalexpr::Value::Int(-99)))).expect("set function");
+                c
+            })
+        };
+        let (plain, shadowing) = (make(false).join().expect("thread"), make(true).join().expect("thread"));
+        let src = ["min(3, 5) + 1", "min(a, 7)", "(min(1, 2), max(1, 2), len(\"ab\"))"][round % 3];
+        let tree = evalexpr::build_operator_tree::<DefaultNumericTypes>(src).expect("builds");
+        let want_plain = evalexpr::build_operator_tree::<DefaultNumericTypes>(src).expect("builds").eval_with_context(&plain).map(|v| to_rv(&v));
+        let want_shadow = evalexpr::build_operator_tree::<DefaultNumericTypes>(src).expect("builds").eval_with_context(&shadowing).map(|v| to_rv(&v));
+        let mut bad: Option<(Res, Res)> = None;
+        for _ in 0..3 {
+            let r1 = tree.eval_with_context(&plain).map(|v| to_rv(&v));
+            let r2 = tree.eval_with_context(&shadowing).map(|v| to_rv(&v));
+            if !res_same(&r1, &want_plain) {
+                bad = Some((want_plain.clone(), r1));
+            } else if !res_same(&r2, &want_shadow) {
+                bad = Some((want_shadow.clone(), r2));
+            }
+        }
+        std::thread::scope(|s| {
+            let (tree, plain, shadowing, want_plain, want_shadow) = (&tree, &plain, &shadowing, &want_plain, &want_shadow);
+            let h1 = s.spawn(move || (0..200).all(|_| res_same(&tree.eval_with_context(plain).map(|v| to_rv(&v)), want_plain)));
+            let h2 = s.spawn(move || (0..200).all(|_| res_same(&tree.eval_with_context(shadowing).map(|v| to_rv(&v)), want_shadow)));
+            let ok = h1.join().unwrap_or(false) & h2.join().unwrap_or(false);
+            if !ok && bad.is_none() {
+                bad = Some((want_shadow.clone(), tree.eval_with_context(shadowing).map(|v| to_rv(&v))));
+            }
+        });
+        l.evaluations += 406;
+        if let Some((want, got)) = bad {
+            rep.fail(
+                "contexts-from-threads",
+                "C15/one tree evaluated against two contexts built on different threads gives the result of the wrong context",
+                json!({"kind": "concurrent", "src": src, "ctx": common::ctx_to_json(&Ctx::hashmap()), "threads": 2}),
+                res_text(&want),
+                res_text(&got),
+                src.len(),
+            );
+            break;
+        }
+    }
+    l.label("contexts built on different threads");
     rep.merge(l);
 }
 
